@@ -194,6 +194,16 @@ func init() {
 			}
 			c.Return(app(BoolSort, "=", iv.V.(*Term), sbv2int(c.args[1].(*Term))))
 		},
+		// vhConstAbsBelowPow2(v, k): |c| < 2^k for a concrete k
+		"vhConstAbsBelowPow2": func(c *CallCtx) {
+			z := c.args[0].(Iface).V.(*Term)
+			k := c.args[1].(*Term)
+			if !k.Const {
+				unsupported("vhConstAbsBelowPow2 needs a constant exponent")
+			}
+			pow := new(big.Int).Lsh(big.NewInt(1), uint(k.U)).String()
+			c.Return(&Term{Sort: BoolSort, S: fmt.Sprintf("(and (< (- %s) %s) (< %s %s))", pow, z.S, z.S, pow), size: 4})
+		},
 		// vhConstKind(v): v.Kind() as an int
 		"vhConstKind": func(c *CallCtx) { c.Return(BVC(64, uint64(constKindOf(c.args[0])))) },
 		// vhConstLow64(v): the low 64 bits of the constant (two's complement)
@@ -255,7 +265,7 @@ func (ex *Exec) constToFloat(st *State, z *Term, bits int) *Term {
 	low := app(BVSort(64), "(_ int2bv 64)", z)
 	inI64 := &Term{Sort: BoolSort, S: fmt.Sprintf("(and (<= (- 9223372036854775808) %s) (< %s 9223372036854775808))", z.S, z.S), size: 4}
 	inU64 := &Term{Sort: BoolSort, S: fmt.Sprintf("(and (<= 0 %s) (< %s 18446744073709551616))", z.S, z.S), size: 4}
-	big := &Term{Sort: BoolSort, S: fmt.Sprintf("(>= %s 18446744073709551616)", z.S), size: 2}
+	isBig := &Term{Sort: BoolSort, S: fmt.Sprintf("(>= %s 18446744073709551616)", z.S), size: 2}
 	small := &Term{Sort: BoolSort, S: fmt.Sprintf("(< %s (- 9223372036854775808))", z.S), size: 2}
 	st.addPC(Implies(inI64, Eq(f, IntToFP(low, true, bits))))
 	st.addPC(Implies(inU64, Eq(f, IntToFP(low, false, bits))))
@@ -265,8 +275,21 @@ func (ex *Exec) constToFloat(st *State, z *Term, bits int) *Term {
 	} else {
 		two64, mtwo63 = F64C(18446744073709551616.0), F64C(-9223372036854775808.0)
 	}
-	st.addPC(Implies(big, fpCmp("fp.geq", f, two64)))
+	st.addPC(Implies(isBig, fpCmp("fp.geq", f, two64)))
 	st.addPC(Implies(small, fpCmp("fp.leq", f, mtwo63)))
+	// rounding to nearest is monotone and powers of two are representable: |c| < 2^k <=> |f| < 2^k.
+	// Stated for the exponents around the float32 range; a float64 is finite for every modelled constant (|c| < 2^130).
+	if bits == 64 {
+		st.addPC(Not(app(BoolSort, "fp.isInfinite", f)))
+		st.addPC(Not(FPIsNaN(f)))
+		for _, k := range []uint{127, 128, 129} {
+			pow := new(big.Int).Lsh(big.NewInt(1), k)
+			pf, _ := new(big.Float).SetInt(pow).Float64()
+			below := &Term{Sort: BoolSort, S: fmt.Sprintf("(and (< (- %s) %s) (< %s %s))", pow, z.S, z.S, pow), size: 4}
+			absBelow := And(fpCmp("fp.lt", f, F64C(pf)), fpCmp("fp.gt", f, F64C(-pf)))
+			st.addPC(Eq(below, absBelow))
+		}
+	}
 	return f
 }
 
